@@ -76,10 +76,11 @@ def crash_kind(rc, errtext):
 
 
 class Shard:
-    def __init__(self, binpath, r, n, tier, outdir, env):
+    def __init__(self, binpath, r, n, tier, outdir, env, tag=""):
         self.bin, self.r, self.n, self.tier = binpath, r, n, tier
-        self.out = os.path.join(outdir, "shard%02d.out" % r)
-        self.err = os.path.join(outdir, "shard%02d.err" % r)
+        self.tag = tag  # "" for the primary binary, "<name>@" for an extra build variant of the same harness
+        self.out = os.path.join(outdir, "shard%s%02d.out" % (tag.replace("@", "_"), r))
+        self.err = os.path.join(outdir, "shard%s%02d.err" % (tag.replace("@", "_"), r))
         self.env = env
         self.proc = None
         self.restarts = 0
@@ -135,12 +136,14 @@ class Shard:
             self.proc.wait()
 
 
-def parse_out(path, acc):
+def parse_out(path, acc, tag=""):
     for line in open(path, errors="replace"):
         f = line.rstrip("\n").split("\t")
         t = f[0]
+        if t == "D" and len(f) >= 3:
+            f[1] = tag + f[1]
         if t == "V" and len(f) >= 4:
-            acc["viol"].append({"key": f[1], "case": f[2], "detail": f[3]})
+            acc["viol"].append({"key": f[1], "case": tag + f[2], "detail": f[3]})
         elif t == "K" and len(f) >= 2:
             acc["classes"].add(f[1])
         elif t == "N" and len(f) >= 3:
@@ -159,6 +162,9 @@ def case_sort_key(case, space_order):
 
 
 def replay_case(binpath, tier, case, env, outdir, tag):
+    if "@" in case:  # case of an extra build variant: "<binary>@<space>:<idx>"
+        bname, case = case.split("@", 1)
+        binpath = os.path.join(os.path.dirname(binpath), bname)
     out = os.path.join(outdir, "replay_%s.out" % tag)
     err = os.path.join(outdir, "replay_%s.err" % tag)
     if os.path.exists(out):
@@ -249,6 +255,18 @@ def main():
                 meta["assumption"].append(f[2])
             else:
                 meta[f[1]] = f[2]
+    binaries = [("", binpath)]
+    for extra in [b for b in meta.get("extra_binaries", "").split(",") if b]:
+        ep = os.path.join(os.path.dirname(binpath), extra)
+        er = subprocess.run([ep, "--tier", tier, "--seed", str(SEED), "--list"], stdout=subprocess.PIPE, text=True, env=env)
+        if er.returncode != 0:
+            print("HARNESS-ERROR: --list failed for " + extra)
+            return 2
+        for line in er.stdout.splitlines():
+            f = line.split("\t")
+            if f[0] == "S":
+                spaces.append((extra + "@" + f[1], int(f[2])))
+        binaries.append((extra + "@", ep))
     space_order = {s: i for i, (s, _) in enumerate(spaces)}
     level = meta.get("level", "exploration")
     deadline = float(os.environ.get("VERIF_DEADLINE_S", meta.get("deadline_" + tier, "1500" if tier == "thorough" else "600")))
@@ -257,8 +275,8 @@ def main():
     shutil.rmtree(scratch, ignore_errors=True)
     os.makedirs(scratch)
     total_cases = sum(n for _, n in spaces)
-    nsh = max(1, min(JOBS, int(meta.get("max_shards", JOBS)), total_cases))
-    shards = [Shard(binpath, r, nsh, tier, scratch, env) for r in range(nsh)]
+    nsh = max(1, min(max(1, JOBS // len(binaries)), int(meta.get("max_shards", JOBS)), total_cases))
+    shards = [Shard(bp, r, nsh, tier, scratch, env, tag) for (tag, bp) in binaries for r in range(nsh)]
     for s in shards:
         s.start()
     deadline_hit = False
@@ -276,14 +294,14 @@ def main():
 
     acc = {"viol": [], "classes": set(), "counters": {}, "samples": [], "done": {}, "notes": []}
     for s in shards:
-        parse_out(s.out, acc)
+        parse_out(s.out, acc, s.tag)
     crashes = []
     gave_up = False
     for s in shards:
         gave_up = gave_up or s.gave_up
         for (case, hint, kind, errtail) in s.crashes:
             crashes.append({"key": "crash:%s:%s" % (kind, hint or (case.rsplit(":", 1)[0] if case else "?")),
-                            "case": case or "?:0", "detail": "process died (%s) %s" % (kind, hint), "errtail": errtail})
+                            "case": s.tag + (case or "?:0"), "detail": "process died (%s) %s" % (kind, hint), "errtail": errtail})
 
     # ---- group, replay, classify
     findings = [f for f in load_findings() if f["property"] == prop]
